@@ -40,6 +40,58 @@ use redo::{
 
 use super::{auto_bool_arg, log_flags};
 
+/// Standard input, taken off the pipe as it arrives by a thread of its own.
+///
+/// The redo that started us writes its own records (do / done of every target it builds
+/// itself) to this pipe.  While we follow one target's log we do not read the pipe; once it
+/// was full that redo blocked in `write` -- and could never record the end of the very
+/// target we were waiting for: `redo -j2 slow <800 other targets>` hung for good.  Nothing
+/// is lost or reordered: the bytes wait here instead of in the pipe.
+struct DrainedStdin {
+    rx: std::sync::mpsc::Receiver<Vec<u8>>,
+    cur: io::Cursor<Vec<u8>>,
+}
+
+impl DrainedStdin {
+    fn start() -> DrainedStdin {
+        use std::io::Read;
+        let (tx, rx) = std::sync::mpsc::channel();
+        thread::spawn(move || {
+            let mut stdin = io::stdin();
+            let mut buf = vec![0u8; 65536];
+            loop {
+                match stdin.read(&mut buf) {
+                    Ok(0) | Err(_) => break,
+                    Ok(n) => {
+                        if tx.send(buf[..n].to_vec()).is_err() {
+                            break;
+                        }
+                    }
+                }
+            }
+        });
+        DrainedStdin {
+            rx,
+            cur: io::Cursor::new(Vec::new()),
+        }
+    }
+}
+
+impl io::Read for DrainedStdin {
+    fn read(&mut self, buf: &mut [u8]) -> io::Result<usize> {
+        loop {
+            let n = self.cur.read(buf)?;
+            if n > 0 || buf.is_empty() {
+                return Ok(n);
+            }
+            match self.rx.recv() {
+                Ok(v) => self.cur = io::Cursor::new(v),
+                Err(_) => return Ok(0), // end of input
+            }
+        }
+    }
+}
+
 pub(crate) fn run() -> Result<(), Error> {
     use anyhow::Context;
     use std::io::Write;
@@ -162,10 +214,9 @@ impl LogState {
         }
         self.fix_depth();
         let mydir = t.parent().unwrap_or_default();
-        let stdin = io::stdin();
         let (mut f, mut info): (Option<Box<dyn BufRead>>, Option<(i64, Lock, PathBuf)>) =
             if t.as_str() == "-" {
-                (Some(Box::new(stdin.lock())), None)
+                (Some(Box::new(BufReader::new(DrainedStdin::start()))), None)
             } else {
                 let fid = {
                     let mut ptx = ProcessTransaction::new(ps, TransactionBehavior::Deferred)?;
